@@ -81,7 +81,7 @@ func (conv *lfToCRLFWriter) Write(data []byte) (int, error) {
 		}
 
 		switch {
-		case idx == 0 && conv.hadCR:
+		case idx == 0 && n == 0 && conv.hadCR:
 			fallthrough
 		case idx > 0 && window[idx-1] == '\r':
 			w, err := conv.w.Write(window[:idx+1])
